@@ -526,6 +526,57 @@ func init() {
 		copy(out, r)
 		return out
 	})
+	// streaming SHA-256 (crypto/sha256.New: the block function is assembly): the
+	// written bytes are kept in a side table keyed by the digest; Sum hashes them
+	// concretely when they are all concrete and is the same uninterpreted
+	// function as Sum256 otherwise.
+	shaBuf := func(in *Interp, recv Value) *[]Value {
+		pv := recv.(*Value)
+		if in.shaStreams == nil {
+			in.shaStreams = map[*Value]*[]Value{}
+		}
+		b, ok := in.shaStreams[pv]
+		if !ok {
+			b = new([]Value)
+			in.shaStreams[pv] = b
+		}
+		return b
+	}
+	reg("(*crypto/internal/fips140/sha256.Digest).Reset", func(in *Interp, fr *frame, fn *ssa.Function, args []Value) Value {
+		*shaBuf(in, args[0]) = nil
+		return nil
+	})
+	reg("(*crypto/internal/fips140/sha256.Digest).Write", func(in *Interp, fr *frame, fn *ssa.Function, args []Value) Value {
+		b := shaBuf(in, args[0])
+		p := args[1].(Slice).A
+		*b = append(*b, p...)
+		return tuple(ConstBV(64, uint64(len(p))), nilErr())
+	})
+	reg("(*crypto/internal/fips140/sha256.Digest).Sum", func(in *Interp, fr *frame, fn *ssa.Function, args []Value) Value {
+		inb := *shaBuf(in, args[0])
+		allConst := true
+		bs := make([]byte, len(inb))
+		for i, e := range inb {
+			t := e.(*Term)
+			if !t.IsConst() {
+				allConst = false
+				break
+			}
+			bs[i] = byte(t.C)
+		}
+		var out []Value
+		if allConst {
+			h := sha256.Sum256(bs)
+			for i := range h {
+				out = append(out, ConstBV(8, uint64(h[i])))
+			}
+		} else {
+			out = in.ufBytes("sha256", inb, 32)
+		}
+		prefix := args[1].(Slice).A
+		res := append(append([]Value{}, prefix...), out...)
+		return Slice{A: res}
+	})
 	// randomness: fixed bytes (listed as a stub; no property here depends on random values)
 	fill := func(in *Interp, fr *frame, fn *ssa.Function, args []Value) Value {
 		b := args[len(args)-1].(Slice)
